@@ -247,6 +247,21 @@ func checkHistory(run *core.Run, nProbes, nHistories, histLen int) {
 	if got, err := runHistoryProcess(rev); err == nil {
 		compare("the probes in reverse order", got, func(i int) int { return len(probes) - 1 - i }, nil)
 	}
+	// look-alike history: for every probe, earlier inputs that share its length, its prefix or its suffix - the
+	// shapes a coarsely keyed cache (by length, by prefix, by hash of a part) would confuse with the probe
+	{
+		var pre []string
+		for _, p := range probes {
+			if len(p) < 4 {
+				continue
+			}
+			mid := len(p) / 2
+			pre = append(pre, p[:mid]+"x"+p[mid+1:], p+" ", p[:len(p)-1], strings.ToUpper(p[:1])+p[1:], p[:mid]+p[mid:]+"\n# tail")
+		}
+		if got, err := runHistoryProcess(append(append([]string{}, pre...), probes...)); err == nil {
+			compare("look-alike inputs (same length / prefix / suffix as the probes)", got, func(i int) int { return len(pre) + i }, pre)
+		}
+	}
 	for h := 0; h < nHistories; h++ {
 		var pre []string
 		for k := 0; k < histLen; k++ {
